@@ -831,6 +831,17 @@ func c18To(g reflect.Value, ty cty.Type) (impl string, v cty.Value, err error, p
 	return
 }
 
+// c18AddFrom records a decode as a correspondence case.  A failure is sent together with what
+// was observed: fromCtyObject ranges over a Go map, so which failing attribute is met first
+// (an error or a panic) is Go's choice; the model accepts the answer iff some schedule gives it.
+func c18AddFrom(ctx *Ctx, impl, vw, tw string) {
+	if impl == "err" || impl == "panic" {
+		ctx.Add("gocty.fromcty", impl, vw, tw, impl)
+		return
+	}
+	ctx.Add("gocty.fromcty", impl, vw, tw)
+}
+
 func c18NumLit(f *big.Float) string {
 	if f.IsInf() {
 		if f.Signbit() {
@@ -1256,7 +1267,7 @@ func runC18RoundTrip(ctx *Ctx) {
 			return
 		}
 		implFrom, target, _, _, _ := c18From(v, f.rt)
-		ctx.Add("gocty.fromcty", implFrom, encVal(v), tw)
+		c18AddFrom(ctx, implFrom, encVal(v), tw)
 		if !strings.HasPrefix(implFrom, "ok") {
 			fail("FromCtyValue: " + implFrom)
 			return
@@ -1429,7 +1440,7 @@ func runC18Decode(ctx *Ctx) {
 	emit := func(v cty.Value, rt reflect.Type, tag string) {
 		impl, _, _, _, why := c18From(v, rt)
 		vw, tw := encVal(v), encGoTy(rt)
-		ctx.Add("gocty.fromcty", impl, vw, tw)
+		c18AddFrom(ctx, impl, vw, tw)
 		ctx.Eval("fromcty "+vw+" "+tw, c18Nested(rt))
 		ctx.Tag(tag + ":" + impl[:2])
 		c18Judge(ctx, v, rt, impl, why)
@@ -1562,7 +1573,7 @@ func runC18Regressions(ctx *Ctx) {
 	for _, g := range regs {
 		impl, _, _, _, why := c18From(g.v, g.rt)
 		vw, tw := encVal(g.v), encGoTy(g.rt)
-		ctx.Add("gocty.fromcty", impl, vw, tw)
+		c18AddFrom(ctx, impl, vw, tw)
 		ctx.Eval("regression "+vw+" "+tw, true)
 		ctx.Tag("regression")
 		if impl != g.want {
